@@ -68,45 +68,8 @@ def entry_removed_matcher(repo: Repo, table: str):
         ("Dict", "Set", "List", "Tuple")
     )
 
-    bcache: Dict[int, Dict[str, List[str]]] = {}
-
     def m(fi: FuncInfo, g: GStmt, x: str) -> bool:
         uses = aux.table_uses(repo, fi)
-        if id(fi.node) in bcache:
-            bound = bcache[id(fi.node)]
-            changed = False
-        else:
-            bound = {}
-            for u in uses:
-                if u.bound and u.method in ("get", "get_or_insert"):
-                    bound.setdefault(u.bound, []).extend(u.tables)
-            bcache[id(fi.node)] = bound
-            changed = True
-        # nested: blocks = table.get(func_uuid)
-        while changed:
-            changed = False
-            for n in walk_no_nested(fi.node):
-                if (
-                    isinstance(n, ast.Assign)
-                    and len(n.targets) == 1
-                    and isinstance(n.targets[0], ast.Name)
-                    and isinstance(n.value, (ast.Call, ast.Subscript))
-                ):
-                    v = n.value
-                    base = None
-                    if (
-                        isinstance(v, ast.Call)
-                        and isinstance(v.func, ast.Attribute)
-                        and v.func.attr in ("get", "setdefault")
-                    ):
-                        base = v.func.value
-                    elif isinstance(v, ast.Subscript):
-                        base = v.value
-                    if isinstance(base, ast.Name) and base.id in bound:
-                        nm = n.targets[0].id
-                        if nm not in bound:
-                            bound[nm] = list(bound[base.id])
-                            changed = True
         node = g.node
         cands: List[Tuple[str, ast.expr]] = []
         if isinstance(node, ast.Delete):
@@ -140,7 +103,7 @@ def entry_removed_matcher(repo: Repo, table: str):
         for name, key in cands:
             if src(key) != x:
                 continue
-            ts = bound.get(name)
+            ts = aux.tables_bound_at(repo, fi, name, g)
             if ts and table in ts:
                 return True
         return False
